@@ -64,6 +64,8 @@ def run_one(m):
         out = r.stdout + r.stderr
         if m.get('neutral'):
             return m, ('OK' if r.returncode == 0 else 'FALSE-ALARM'), out if r.returncode else ''
+        if m.get('undecided'):
+            return m, ('OK' if r.returncode == 2 else ('MISSED' if r.returncode == 0 else 'NOW-DETECTED')), out
         if r.returncode == 1 and 'VIOLATION' in out:
             exp = m.get('rule')
             if exp is None or f'[{exp}]' in out or any(f'[{x}]' in out for x in (exp if isinstance(exp, (list, tuple)) else [exp])):
